@@ -1,6 +1,7 @@
 import Driver.Util
 import InfluxVerif.Model.MetaCodec
 import InfluxVerif.Model.Routing
+import InfluxVerif.Model.Retention
 import InfluxVerif.Gen.C06
 namespace Driver.MetaD
 open InfluxVerif.Meta
@@ -149,6 +150,17 @@ def step (s : St) (line : String) : St × String :=
           | some (g, sh) => s!"{g}.{sh}"
         ({ s with data := d', k := d'.index }, "ok " ++ joinCsv (m.map show1))
     | _, _ => (s, "bad-op")
+  | ["pass", now, loc, fsg, fsh, fpr] =>
+    match now.toInt?, allSome ((splitCsv loc).map String.toNat?), allSome ((splitCsv fsg).map String.toNat?),
+          allSome ((splitCsv fsh).map String.toNat?) with
+    | some now, some loc, some fsg, some fsh =>
+      let env : InfluxVerif.Retention.Env :=
+        { now := now, localShards := loc, failSG := fsg.contains, failShard := fsh.contains, failPrune := fpr = "1" }
+      let r := InfluxVerif.Retention.pass s.data env
+      let d' := InfluxVerif.Retention.applyPass s.auto s.data r
+      ({ s with data := d', k := d'.index },
+        s!"marked={joinCsv (r.marked.map fun m => toString m.2.2)} deleted={joinCsv (r.deletedLocal.map toString)} prune={if r.pruned then 1 else 0}")
+    | _, _, _, _ => (s, "bad-op")
   | ["raw", t, e] =>
     match t.toNat?, e.toNat? with
     | some t, some e =>
